@@ -79,7 +79,7 @@ def plan(prop, tier):
                   ops("single", "bigfan23,bigsliver25,bigfan25,bigsliver20", 200 if q else 2000, 3, 120),   # beyond 2^12 (differences <= 2^25, see DESIGN N5): touch-only operands, arithmetic-free laws
                   ops("fwit", ROTF, 300 if q else 6000, 3 if q else 4, 120 if q else 200), ops("fwit32", ROTF, 150 if q else 3000, 3, 120),   # float operands (irrational affine images), witness points, exact arithmetic on the floats
                   enum("fwit", "rot-" + EN_RECTK, 16 if q else 1), enum("fwit", "rot-" + EN_MIX, 2 if q else 1),
-                  ("fixedops", "fwit", "fstar", 600 if q else 8000, 3, 120, 20260928), ("fixedops", "fwit32", "fstar", 300 if q else 4000, 3, 120, 20260929),   # star-shaped float polygons in general position (every meeting point a proper crossing at an irrational place); a FIXED batch like the witness batch
+                  ("fixedops", "fwit", "fstar,fneedle", 700 if q else 9000, 3, 120, 20260928), ("fixedops", "fwit32", "fstar,fneedle", 400 if q else 5000, 3, 120, 20260929),   # star-shaped float polygons in general position (every meeting point a proper crossing at an irrational place); a FIXED batch like the witness batch
 
                   enum("single", EN_RECT, 8 if q else 1), enum("single", EN_TRI, 128 if q else 4), enum("single", EN_SHIFT, 8 if q else 1), enum("single", EN_MIX, 1),   # enumerated: every pair of subsets of a small triangulated lattice
                   tri(2, 840, 3 if q else 1, 0)] + ([] if q else [ops("single", EXACT, 600, 6, 260), enum("single", EN_RECTK, 1), enum("single", EN_BOTH, 4), enum("single", EN_HOLE, 32)]))],
@@ -99,7 +99,7 @@ def plan(prop, tier):
                   ops("single", "tfan,fan,lat", 300 if q else 3000, 3, 120),
                   ops("single", "lamina,pinch,onion,lamina", 400 if q else 4000, 3, 200),   # ring orientation at nesting depth >= 2
                   ops("fwit", ROTF, 300 if q else 1500, 3 if q else 4, 120 if q else 200), ops("fwit32", ROTF, 150 if q else 750, 3, 120),   # float operands: provenance within tolerance, decided exactly on the floats (C04_F)
-                  enum("fwit", "rot-en:2x1:2:0_0:k", 256 if q else 16), ("fixedops", "fwit", "fstar", 400 if q else 6000, 3, 120, 20260930), ("fixedops", "fwit32", "fstar", 200 if q else 3000, 3, 120, 20260931),
+                  enum("fwit", "rot-en:2x1:2:0_0:k", 256 if q else 16), ("fixedops", "fwit", "fneedle,fstar,fneedle", 600 if q else 8000, 3, 120, 20260930), ("fixedops", "fwit32", "fneedle,fstar", 300 if q else 4000, 3, 120, 20260931),   # shallow crossings of long thin rectangles in general position (badly conditioned meeting points): vertices must stay within 128 ulps of both edges
                   enum("single", EN_BOTH, 128 if q else 4), enum("single", EN_SHIFT, 8 if q else 1)] + ([] if q else [enum("single", EN_RECTK, 1)]) + [
                   tri(2, 840, 3 if q else 1, 2)])],
         "C05": [("partition", {"C05"}, "any", "release",
@@ -126,7 +126,7 @@ def plan(prop, tier):
                  [corpus("fan_f32.ndjson"), ops("f32", ALLF, 250 if q else 2500, 3 if q else 4, 100 if q else 140),
                   ops("f32", "fan", 250 if q else 2500, 3, 100), ops("f32", "bigfan23,bigfan24,bigfan20", 400 if q else 4000, 3, 100)]),
                 ("f32-guarantees", {"C01", "C02", "C03", "C04", "C05", "C06"}, "f32", "release",
-                 [corpus("fan_f32.ndjson"), ops("f32", ALLF, 150 if q else 1200, 3, 100), ops("f32", "fan", 150 if q else 1500, 3, 100), ops("fwit32", ROTF, 200 if q else 2000, 3, 120),
+                 [corpus("fan_f32.ndjson"), ops("f32", ALLF, 150 if q else 1200, 3, 100), ops("f32", "fan", 150 if q else 1500, 3, 100), ops("fwit32", ROTF, 200 if q else 2000, 3, 120), ("fixedops", "fwit32", "fneedle,fstar", 200 if q else 2000, 3, 120, 20260932),
                   ops("f32", "bigfan23,bigfan24", 200 if q else 2000, 3, 100)])],
         "C11": [("chains", {"C11", "C03", "C02"}, "any", "release",
                  [ops("chain", EXACT, 120 if q else 1000, 3, 90), ops("chain3", EXACT, 40 if q else 500, 2, 60),
